@@ -6,6 +6,8 @@ import (
 	"sync"
 	"time"
 
+	"github.com/form3tech-oss/f1/v2/internal/metrics"
+	"github.com/form3tech-oss/f1/v2/pkg/f1/scenarios"
 	f1testing "github.com/form3tech-oss/f1/v2/pkg/f1/testing"
 	"github.com/form3tech-oss/f1/v2/verifharness/core"
 	"github.com/form3tech-oss/f1/v2/verifharness/engine"
@@ -172,6 +174,21 @@ func (b *cyclicBarrier) await(timeout time.Duration) bool {
 func c07Run(c *core.Case, o *core.Outcome) {
 	var p c07Params
 	c.Params(&p)
+	// a quarter of the plain cases run twice: same registered scenario object, same metrics instance
+	reps := 1
+	if !p.Barrier && p.Spec.Mode != "file" && c.Rng("reps").IntN(4) == 0 {
+		reps = 2
+	}
+	reg := scenarios.New()
+	var inst *metrics.Metrics
+	base := p.Desc
+	for rep := 1; rep <= reps && o.Verdict == core.Held; rep++ {
+		p.Desc = fmt.Sprintf("%s run %d/%d", base, rep, reps)
+		inst = c07Once(c, o, p, reg, inst)
+	}
+}
+
+func c07Once(c *core.Case, o *core.Outcome, p c07Params, reg *scenarios.Scenarios, inst *metrics.Metrics) (ret *metrics.Metrics) {
 	k := engine.NewTracker()
 	l := engine.NewLog()
 	ctx, cancel := context.WithCancel(context.Background())
@@ -217,13 +234,14 @@ func c07Run(c *core.Case, o *core.Outcome) {
 			engine.Behave(t, kind)
 		}
 	}
-	r := engine.Execute(ctx, p.Spec, l, scenario, nil, nil)
+	r := engine.Execute(ctx, p.Spec, l, scenario, &engine.Hooks{Registry: reg}, inst)
 	if r.NewErr != nil {
 		o.Inconc("harness: cannot build run: %v", r.NewErr)
 		return
 	}
+	ret = r.Metrics
 	S := uint64(k.Started.Load())
-	o.Events = int64(S) + int64(l.Len())
+	o.Events += int64(S) + int64(l.Len())
 	if p.Barrier && bar.stalled {
 		o.Violate("survival:"+p.Desc, "a barrier round of %d workers did not fill within 10 s after %d complete rounds: a worker stopped taking work after a fault (%d distinct handles seen) (%s)", bar.parties, bar.rounds, k.Handles(), p.Desc)
 		return
@@ -281,4 +299,5 @@ func c07Run(c *core.Case, o *core.Outcome) {
 		o.Sig("mode=%s:kinds=%s:barrier=%v:procs=%d", p.Spec.Mode, name, p.Barrier, c.Procs)
 	}
 	o.Sample = map[string]any{"case": p.Desc, "plan": kindsDesc, "result_success": su, "result_failed": fa, "reuse_after_failure": reuseAfterFailure, "barrier_rounds": bar.rounds}
+	return ret
 }
